@@ -873,6 +873,11 @@ fn enabled_c15(w: &RouterWorld, cfg: &Cfg, v: &mut Vec<(Act, u8)>) {
                 v.push((Act::Unsub { c, f }, 0));
             }
         }
+        if cfg.variant == 1 && cfg.filters.len() >= 3 && c == 2 {
+            // one SUBSCRIBE naming two filters: each new one is owed its own replay
+            v.push((Act::Sub2 { c, f1: 0, f2: 1, qos: 1 }, 0));
+            v.push((Act::Sub2 { c, f1: 1, f2: 2, qos: 2 }, 0));
+        }
     }
     ack_actions(w, &[2, 3], v);
 }
@@ -1109,6 +1114,15 @@ fn enabled_c20(w: &RouterWorld, cfg: &Cfg, v: &mut Vec<(Act, u8)>) {
             for q in 0..3u8 {
                 v.push((Act::Sub { c, f: 0, qos: q }, 0));
             }
+        }
+        if live(w, c) && !w.manual && cfg.variant <= 1 {
+            // what the router sends a client of either version when it refuses or closes
+            // (acknowledgements with reason codes, DISCONNECT notifications) has to be
+            // encodable for that version too: one misbehaviour per history
+            for kind in [0u8, 3, 5, 17, 18] {
+                v.push((Act::Bad { c, kind }, 1));
+            }
+            v.push((Act::Unsub { c, f: 0 }, 1));
         }
     }
     ack_actions(w, &[2, 3], v);
